@@ -17,12 +17,12 @@ import (
 // C14 — read-only stores and disabled APIs never change anything.
 
 type c14Cfg struct {
-	store    string // dir | memdir
-	ro       bool
-	push     bool
-	del      bool
-	blobDel  bool
-	layout   layoutKind
+	store   string // dir | memdir
+	ro      bool
+	push    bool
+	del     bool
+	blobDel bool
+	layout  layoutKind
 }
 
 func (c c14Cfg) name() string {
